@@ -763,14 +763,31 @@ def splice_fn(text, fs: FnSpec):
         for c in by_kind.get(kind, []):
             tok, k = c.args["tok"], c.args["k"]
             occ = []
-            s = sh.body_open
-            while True:
-                i = text.find(tok, s, sh.body_close)
-                if i < 0:
-                    break
-                if m[i:i + len(tok)].strip() != "" or tok.strip() == "":
-                    occ.append(i)
-                s = i + 1
+            # anchors match modulo whitespace (a reformatted statement keeps its anchor): every whitespace run of the
+            # token matches any whitespace run, and whitespace may appear around punctuation
+            parts = [re.escape(x) for x in re.findall(r"[A-Za-z0-9_]+|[^A-Za-z0-9_\s]", tok)]
+            rx = re.compile(r"\s*".join(parts)) if parts else None
+            if rx is not None:
+                # adjacent word tokens of the anchor must stay separated by whitespace
+                words = re.findall(r"[A-Za-z0-9_]+|[^A-Za-z0-9_\s]|\s+", tok)
+                pieces = []
+                prev_word = False
+                pending_ws = False
+                for w in words:
+                    if w.isspace():
+                        pending_ws = True
+                        continue
+                    is_word = bool(re.fullmatch(r"[A-Za-z0-9_]+", w))
+                    if pieces:
+                        pieces.append(r"\s+" if (prev_word and is_word) else r"\s*")
+                    pieces.append(re.escape(w))
+                    prev_word = is_word
+                    pending_ws = False
+                rx = re.compile("".join(pieces))
+                for mt_ in rx.finditer(text, sh.body_open, sh.body_close):
+                    i = mt_.start()
+                    if m[i:mt_.end()].strip() != "":
+                        occ.append(i)
             if not occ:
                 sh.lost.append((c, "anchor `%s` not found" % tok))
                 continue
